@@ -89,7 +89,7 @@ def rescale(spec, a, b, l):
 
 
 # ------------------------------------------------------------------------------------------ case generation
-def _spec(rng, smooth_only=False, models=gen.MODELS1D, recons=gen.ALL_RECONS, nmax=16):
+def _spec(rng, smooth_only=False, models=gen.MODELS1D, recons=gen.ALL_RECONS, nmax=16, big=0.0):
     section = None
     mname = str(rng.choice(models))
     if mname == "nozzle":
@@ -97,7 +97,10 @@ def _spec(rng, smooth_only=False, models=gen.MODELS1D, recons=gen.ALL_RECONS, nm
         section = lambda x: aa * (1.0 + bb * np.cos(0.7 * x))
         section.desc = "%g*(1+%g*cos(0.7x))" % (aa, bb)
     bc = str(rng.choice(["per", "sym", "open", "open"]))
-    s = gen.scenario1d(rng, mname=mname, bc=bc, recons=recons, nmin=3, nmax=nmax, mach_max=1.5, ratio=5.0, section=section,
+    ncell = None
+    if big and rng.random() < big:      # a LARGE problem (several hundred unknowns): size-dependent code paths
+        ncell = int(rng.integers(90, 131)) if smooth_only else int(rng.integers(257, 501))
+    s = gen.scenario1d(rng, mname=mname, bc=bc, recons=recons, nmin=3, nmax=nmax, ncell=ncell, mach_max=1.5, ratio=5.0, section=section,
                        dkind="smooth" if smooth_only else None)
     if smooth_only and mname in ("euler1d", "nozzle", "shallowwater"):
         # implicit twins: the finite-difference Jacobian perturbs momentum by sqrt(eps)*mean|rho u|, which is pure noise at
@@ -180,7 +183,7 @@ def _implicit_tol(solver, disc, fend, cfl, iname, nstep):
 def reflection(ctx, rng, idx):
     iname = gen.ALL_INTEG[idx % len(gen.ALL_INTEG)]
     implicit = iname in gen.IMPLICIT
-    spec, s = _spec(rng, smooth_only=implicit, nmax=10 if implicit else 16)
+    spec, s = _spec(rng, smooth_only=implicit, nmax=10 if implicit else 16, big=0.02)
     tw = mirror(spec)
     model, mesh, disc, f = spec.build()
     # half of the twins REUSE the scheme object (and the model object when its parameters are the same) of the original problem
